@@ -69,11 +69,38 @@ func (o outcome) check(t TB, what string, data []byte) {
 	}
 }
 
+// Honoured big claims. On this class of (virtualised, loaded) machine zeroing a
+// recycled 100 MB span can take seconds, while a span from never used address
+// space is neither zeroed nor touched. The harness therefore (1) limits the
+// number of claims per process that the unchanged decoders honour with a
+// multi-megabyte allocation and (2) keeps what those decodes allocated alive,
+// so that the next one is again served from fresh address space.
+var (
+	bigClaimBudget = 24
+	keepAlive      []any
+)
+
+// elemCost is the approximate number of bytes the decoders allocate per
+// claimed element (cost prediction only - never part of an oracle).
+var elemCost = map[string]uint64{
+	"tx.incount": 104, "tx.outcount": 40, "tx.witcount": 24, "block.txcount": 8, "merkleblock.hashcount": 40, "inv.count": 44,
+	"headers.count": 96, "addr.count": 64, "addrv2.count": 64, "locator.count": 40, "cfheaders.count": 8, "cfcheckpt.count": 40,
+	"reject.cmd": 1, "reject.reason": 1, "filterload.filter": 1, "filteradd.data": 1, "cfilter.data": 1, "merkleblock.flags": 1,
+	"version.useragent": 1, "addrv2.addrlen": 1,
+}
+
+func predictedAlloc(kind string, claim uint64) uint64 {
+	if claim > markLimit[kind] {
+		return 0 // refused before anything is allocated
+	}
+	return claim * elemCost[kind]
+}
+
 var maxAllocSeen uint64
 var maxAllocWhat string
 
 func noteAlloc(rec *ev.Rec, o outcome, what string, data []byte) {
-	if os.Getenv("VERIF_C08_DEBUG_ALLOC") != "" && o.alloc > 20<<20 {
+	if os.Getenv("VERIF_C08_DEBUG_ALLOC") != "" && o.alloc > 1<<20 {
 		fmt.Printf("BIGALLOC %d MB %s %.60s\n", o.alloc>>20, what, hexShort(data))
 	}
 	if o.alloc > maxAllocSeen {
@@ -219,6 +246,34 @@ func probeMessage(t TB, rec *ev.Rec, stream []byte, pver uint32, net wire.Bitcoi
 	return nil
 }
 
+// probeDirect offers a payload to the BtcDecode method of the command's
+// message type, keeping the (partially) decoded message alive. Used for the
+// few claims that the decoders honour with a large allocation.
+func probeDirect(t TB, rec *ev.Rec, kind string, payload []byte, pver uint32, enc wire.MessageEncoding) error {
+	msg := newEmpty(kind)
+	rb := bytes.NewBuffer(append([]byte(nil), payload...))
+	what := fmt.Sprintf("%T.BtcDecode(pver=%d, enc=%d)", msg, pver, enc)
+	o := metered(what, payload, func() error { return msg.BtcDecode(rb, pver, enc) })
+	noteAlloc(rec, o, what, payload)
+	if o.alloc > 2<<20 {
+		keepAlive = append(keepAlive, msg)
+	}
+	o.check(t, what, payload)
+	if o.err != nil {
+		return o.err
+	}
+	used := payload[:len(payload)-rb.Len()]
+	var w bytes.Buffer
+	if err := msg.BtcEncode(&w, pver, enc); err != nil || !bytes.Equal(w.Bytes(), used) {
+		if sig := toleranceOf(kind, pver, used); sig != "" && rec.Known(sig, "direct BtcDecode of "+hexShort(used)) {
+			rec.Excluded()
+			return nil
+		}
+		t.Fatalf("decode->encode identity violated: %s accepted bytes that re-encode differently (err=%v): %s\ninput: %s", what, err, diffBytes(used, w.Bytes()), hexShort(payload))
+	}
+	return nil
+}
+
 // probeTx offers bytes to MsgTx.Deserialize / DeserializeNoWitness and
 // btcutil.NewTxFromBytes.
 func probeTx(t TB, rec *ev.Rec, data []byte, witness bool, meter bool) error {
@@ -245,8 +300,11 @@ func probeTx(t TB, rec *ev.Rec, data []byte, witness bool, meter bool) error {
 		}()
 	}
 	o.check(t, what, data)
+	if o.alloc > 2<<20 {
+		keepAlive = append(keepAlive, &tx)
+	}
 	consumed := len(data) - r.Len()
-	if witness && (o.alloc < 8<<20 || !meter) { // the same decoder again: not after a 10-150 MB decode
+	if witness && (o.alloc < 2<<20 || !meter) { // the same decoder again: not after a 10-150 MB decode
 		var utx *btcutil.Tx
 		uo := execute(meter, "btcutil.NewTxFromBytes", data, func() error {
 			var err error
@@ -321,8 +379,11 @@ func probeBlock(t TB, rec *ev.Rec, data []byte, witness bool, meter bool) error 
 		}()
 	}
 	o.check(t, what, data)
+	if o.alloc > 2<<20 {
+		keepAlive = append(keepAlive, &blk)
+	}
 	consumed := len(data) - r.Len()
-	if witness && (o.alloc < 8<<20 || !meter) {
+	if witness && (o.alloc < 2<<20 || !meter) {
 		var ub *btcutil.Block
 		uo := execute(meter, "btcutil.NewBlockFromBytes", data, func() error {
 			var err error
@@ -486,6 +547,7 @@ type hostilePayload struct {
 	data    []byte
 	mustErr string // non-empty: why a decoder has to refuse it
 	past    bool   // the input has content after its first count/length field
+	expensive bool // a claim the unchanged decoder honours with a multi-MB allocation
 }
 
 func deriveHostile(t *rapid.T, e *wirefmt.Enc, defined bool) hostilePayload {
@@ -499,6 +561,14 @@ func deriveHostile(t *rapid.T, e *wirefmt.Enc, defined bool) hostilePayload {
 	case k <= 2 && len(e.Marks) > 0:
 		m := rapid.SampledFrom(e.Marks).Draw(t, "mark")
 		claim := genClaim(t, m.Kind)
+		if predictedAlloc(m.Kind, claim) > 2<<20 {
+			if bigClaimBudget <= 0 {
+				claim = markLimit[m.Kind] + 1
+			} else {
+				bigClaimBudget--
+				h.expensive = true
+			}
+		}
 		h.class = "claim"
 		h.data = splice(e.B, m.Off, m.Len, wirefmt.AppendVarInt(nil, claim))
 		rest := uint64(len(e.B) - m.Off - m.Len)
@@ -589,7 +659,13 @@ func TestHostileMessages(t *testing.T) {
 		recHostileMsg.Case(h.past, h.class, ev.Hash([]byte(kind), u32b(pver), u32b(uint32(enc)), h.data), func() any {
 			return fmt.Sprintf("%s %s pver=%d enc=%d mustErr=%q payload=%s", h.class, kind, pver, enc, h.mustErr, hexShort(h.data))
 		})
-		err := probeMessage(t, recHostileMsg, stream, pver, net, enc, true)
+		var err error
+		if h.expensive {
+			recHostileMsg.Count("honoured-big-claim", 1)
+			err = probeDirect(t, recHostileMsg, kind, h.data, pver, enc)
+		} else {
+			err = probeMessage(t, recHostileMsg, stream, pver, net, enc, true)
+		}
 		if err == nil {
 			recHostileMsg.Count("accepted", 1)
 			if h.mustErr != "" {
@@ -686,6 +762,9 @@ func TestHostileTxBlock(t *testing.T) {
 		recHostileTx.Case(h.past, h.class, ev.Hash([]byte(target), []byte{b2i(witness)}, h.data), func() any {
 			return fmt.Sprintf("%s %s witness=%v mustErr=%q bytes=%s", h.class, target, witness, h.mustErr, hexShort(h.data))
 		})
+		if h.expensive {
+			recHostileTx.Count("honoured-big-claim", 1)
+		}
 		err := probe(h.data, true)
 		if err == nil {
 			recHostileTx.Count("accepted", 1)
@@ -826,6 +905,8 @@ var recVarInt = ev.New("C08", "varint",
 		"non-trivial = value needs more than one byte or sits next to a boundary; distinct by value",
 	"1-byte", "3-byte", "5-byte", "9-byte")
 
+var bigStringBudget = 6
+
 func TestVarInt(t *testing.T) {
 	rapid.Check(t, func(t *rapid.T) {
 		v := rapid.OneOf(
@@ -858,6 +939,13 @@ func TestVarInt(t *testing.T) {
 			}
 		}
 		// length-prefixed strings: a claimed length v with little data
+		if v > 1<<20 && v <= wire.MaxMessagePayload {
+			// an honoured 1..32 MiB claim costs up to seconds of zeroing on this machine: a few per process
+			if bigStringBudget <= 0 {
+				return
+			}
+			bigStringBudget--
+		}
 		data := append(append([]byte(nil), want...), rapid.SliceOfN(rapid.Byte(), 0, 20).Draw(t, "strData")...)
 		maxAllowed := rapid.SampledFrom([]uint32{0, 1, 520, 36000, 4000000, wire.MaxMessagePayload}).Draw(t, "maxAllowed")
 		var gotB []byte
@@ -876,9 +964,6 @@ func TestVarInt(t *testing.T) {
 		}
 		if v > uint64(maxAllowed) && o.alloc > 1<<20 {
 			t.Fatalf("ReadVarBytes allocated %d bytes for a refused length %d (max %d)", o.alloc, v, maxAllowed)
-		}
-		if v > 1<<20 && v <= wire.MaxMessagePayload && rapid.IntRange(0, 7).Draw(t, "bigString") != 0 {
-			return // an honoured 1..32 MiB claim costs milliseconds of zeroing: sample 1 in 8
 		}
 		var gotS string
 		o = metered("ReadVarString", data, func() error {
